@@ -446,6 +446,31 @@ pub fn check_error_paths(c: &ErrorPathCase, info: &mut CaseInfo) -> Result<(), S
 	results.push(("CertificateParams::from_ca_cert_pem", no_panic(|| rcgen::CertificateParams::from_ca_cert_pem(&t)).ok().and_then(|r| r.err())));
 	results.push(("CertificateSigningRequestParams::from_pem", no_panic(|| rcgen::CertificateSigningRequestParams::from_pem(&t)).ok().and_then(|r| r.err())));
 	results.push(("SubjectPublicKeyInfo::from_pem", no_panic(|| rcgen::SubjectPublicKeyInfo::from_pem(&t)).ok().and_then(|r| r.err())));
+	// bundles as they occur on disk: the key text before / after a certificate or a request
+	{
+		let ck = keys::make_key(&KeySpec { alg: KeyAlg::Ed25519, idx: 1, rsa_hash: RsaHash::Sha256, remote: !cfg!(feature = "crypto") })?;
+		let mut spec = CertSpec::minimal();
+		spec.is_ca = IsCaSpec::CaUnconstrained;
+		let cert_pem = crate::mk::cert_params(&spec)?.self_signed(&ck).map_err(|e| e.to_string())?.pem();
+		let mut cs = CertSpec::minimal();
+		cs.serial = None;
+		let csr_pem = crate::mk::cert_params(&cs)?.serialize_request(&ck).map_err(|e| e.to_string())?.pem().map_err(|e| e.to_string())?;
+		for (what, bundle) in [
+			("key + certificate", format!("{text}{cert_pem}")),
+			("certificate + key", format!("{cert_pem}{text}")),
+			("key + request", format!("{text}{csr_pem}")),
+			("request + key", format!("{csr_pem}{text}")),
+		] {
+			let b = bundle.clone();
+			results.push((what, no_panic(|| rcgen::CertificateParams::from_ca_cert_pem(&b)).ok().and_then(|r| r.err())));
+			let b = bundle.clone();
+			results.push((what, no_panic(|| rcgen::CertificateSigningRequestParams::from_pem(&b)).ok().and_then(|r| r.err())));
+			let b = bundle.clone();
+			results.push((what, no_panic(|| rcgen::KeyPair::from_pem(&b)).ok().and_then(|r| r.err())));
+			let b = bundle.clone();
+			results.push((what, no_panic(|| rcgen::SubjectPublicKeyInfo::from_pem(&b)).ok().and_then(|r| r.err())));
+		}
+	}
 	for (name, e) in results {
 		if let Some(e) = e {
 			n_err += 1;
@@ -656,7 +681,7 @@ fn cli_fail_case() -> BoxedStrategy<CliFailCase> {
 pub fn def() -> PropertyDef {
 	PropertyDef {
 		id: "C19",
-		rule: "Every fixture key algorithm of this back end; the secret components (EC scalar, Ed25519 seed, RSA d/p/q/dP/dQ/qInv) are cut out of the PKCS#8 by the harness reader and every output channel is scanned for any 16-byte window of any component in raw, hexadecimal (either case, separators), decimal-list and base64 (all four alignments) form: der()/pem() and Debug of certificates, CSRs, CSR parameters, CRLs, exported public keys, Debug of KeyPair and SubjectPublicKeyInfo; error paths: the key under every wrong algorithm through every entry point, 0..8 DER mutations, 0..3 PEM text edits (line deleted/duplicated, blank or space line inserted, label changed, header added, truncated, character replaced, CRLF, joined lines, garbage prepended) through all PEM loaders and through the certificate/CSR/SPKI parsers. The command line tool (both builds) is run into obstructed output locations (a directory where one of the four files should go, --output naming a regular file) and with invalid options: what it prints must contain no private key block, no base64 text that decodes to a private key, and no material of a key it did write. The explicit export functions are the only exempt channel (and the scanner must find the key there). Non-trivial = artefact case, or an error-path case with at least one error text.",
+		rule: "Every fixture key algorithm of this back end; the secret components (EC scalar, Ed25519 seed, RSA d/p/q/dP/dQ/qInv) are cut out of the PKCS#8 by the harness reader and every output channel is scanned for any 16-byte window of any component in raw, hexadecimal (either case, separators), decimal-list and base64 (all four alignments) form: der()/pem() and Debug of certificates, CSRs, CSR parameters, CRLs, exported public keys, Debug of KeyPair and SubjectPublicKeyInfo; error paths: the key under every wrong algorithm through every entry point, 0..8 DER mutations, 0..3 PEM text edits (line deleted/duplicated, blank or space line inserted, label changed, header added, truncated, character replaced, CRLF, joined lines, garbage prepended) through all PEM loaders and through the certificate/CSR/SPKI parsers, alone and bundled before / after a certificate or a request. The command line tool (both builds) is run into obstructed output locations (a directory where one of the four files should go, --output naming a regular file) and with invalid options: what it prints must contain no private key block, no base64 text that decodes to a private key, and no material of a key it did write. The explicit export functions are the only exempt channel (and the scanner must find the key there). Non-trivial = artefact case, or an error-path case with at least one error text.",
 		assumptions: vec!["a leak is a contiguous window of >= 16 bytes of a secret component in one of the four renderings", "the harness reader extracts the secret components correctly (the scanner is checked against the explicit export in every artefact case)"],
 		subs: vec![
 			prop_sub("artefacts", 12_500, 150_000, || {
